@@ -42,3 +42,12 @@ type ConnReader interface {
 	// Size returns the number of bytes that can be read from current Connection.
 	Size() int
 }
+
+// initialFrameCapacity bounds the buffer allocated up front for a frame of the declared length.
+func initialFrameCapacity(totalLen int) int {
+	const limit = 4096
+	if totalLen > limit {
+		return limit
+	}
+	return totalLen
+}
